@@ -419,6 +419,9 @@ def build(tier):
     add([Method("m", "ref", ["res"], "int_u64")], "recv=ref args=[res] ret=int_u64 (Result argument of an int_result method)")
     add([Method("ma", "mut", ["u64", "res"], "int_tl"), Method("mb", "ref", ["res_q"], "u64")],
         "trait-level #[int_result]: Result arguments (second position / module-path spelling) of methods with and without a Result return", attr="#[int_result]")
+    # the trait-level attribute is found wherever it stands among the trait's attributes (after a doc comment / another attribute)
+    add([Method("ma", "ref", ["u64"], "int_tl"), Method("mb", "mut", ["u64"], "int_tl")],
+        "trait-level #[int_result] written after a doc comment and an #[allow] attribute", attr="/// documented trait\n    #[allow(clippy::all)]\n    #[int_result]")
     # trait methods that are themselves declared `extern "C"`: every wrapped shape is lowered as for ordinary methods
     EC = 'extern "C"'
     for a in ("slice_u8", "str", "opt_u64", "res", "slice_mut"):
